@@ -48,6 +48,16 @@ pub enum Op {
     /// any order: keyed items behind plain ones, keys at the ends of the symbol value range, repeated keys
     MakeMixedList(Vec<(usize, Option<u64>)>),
     MergeSymbols(u64, u64, Option<u64>),
+    /// the convenience adders outside the GarnishData trait: Basic add_string / add_byte_slice, Simple add_string /
+    /// add_u8_vec / add_symbol_list / add_pair_from / add_plain_list_from / add_associative_list_from /
+    /// add_concatenation_from (operands are leaf values)
+    ApiText(String),
+    ApiBytes(Vec<u8>),
+    ApiSymbolList(Vec<u64>),
+    ApiPair(Val, Val),
+    ApiPlainList(Vec<Val>),
+    ApiAssocList(Vec<(String, Val)>),
+    ApiConcat(Val, Val, Vec<Val>),
     /// BasicGarnishData::push_object_to_data_block: a whole value graph handed over as a BasicObject
     PushObject(Val),
     /// merge_to_symbol_list of two earlier values that are symbols or symbol lists (any lengths, either order)
@@ -481,6 +491,9 @@ fn apply<D: SimData>(d: &mut D, m: &mut Model, op: &Op, out: &mut Outcome) -> Ap
             added!(addr, got)
         }
         Op::PushCustom | Op::PushExprSymbol(_, _) | Op::PushObject(_) => return basic_only(d, m, op),
+        Op::ApiText(_) | Op::ApiBytes(_) | Op::ApiSymbolList(_) | Op::ApiPair(_, _) | Op::ApiPlainList(_) | Op::ApiAssocList(_) | Op::ApiConcat(_, _, _) => {
+            return if D::IS_BASIC { basic_only(d, m, op) } else { simple_only(d, m, op) };
+        }
     }
     Applied::Done
 }
@@ -504,6 +517,22 @@ fn basic_only<D: SimData>(d: &mut D, m: &mut Model, op: &Op) -> Applied {
                 Err(e) => Applied::Violation("C15.op-failed".into(), format!("push_object_to_data_block: {:?}", crate::world::short_err(&format!("{:?}", e)))),
             }
         }
+        Op::ApiText(t) => match b.add_string(t) {
+            Ok(addr) => {
+                m.remember(addr, Val::Text(t.clone()));
+                Applied::Done
+            }
+            Err(e) if store_full(&e) => Applied::Refused,
+            Err(e) => Applied::Violation("C15.op-failed".into(), format!("add_string: {:?}", crate::world::short_err(&format!("{:?}", e)))),
+        },
+        Op::ApiBytes(x) => match b.add_byte_slice(x) {
+            Ok(addr) => {
+                m.remember(addr, Val::Bytes(x.clone()));
+                Applied::Done
+            }
+            Err(e) if store_full(&e) => Applied::Refused,
+            Err(e) => Applied::Violation("C15.op-failed".into(), format!("add_byte_slice: {:?}", crate::world::short_err(&format!("{:?}", e)))),
+        },
         Op::PushCustom => match b.push_to_custom_data_block(()) {
             Ok(i) => {
                 if i != m.custom {
@@ -530,6 +559,95 @@ fn basic_only<D: SimData>(d: &mut D, m: &mut Model, op: &Op) -> Applied {
         }
         _ => Applied::Skipped,
     }
+}
+
+/// a leaf value as SimpleData (None for anything that is not a leaf)
+fn to_simple_leaf(v: &Val) -> Option<garnish_lang_simple_data::SimpleData<garnish_lang_simple_data::NoCustom>> {
+    use garnish_lang_simple_data::SimpleData as S;
+    Some(match v {
+        Val::Unit => S::Unit,
+        Val::True => S::True,
+        Val::False => S::False,
+        Val::Int(i) => S::Number(SimpleNumber::Integer(*i)),
+        Val::Char(c) => S::Char(*c),
+        Val::Byte(b) => S::Byte(*b),
+        Val::Sym(s) => S::Symbol(*s),
+        Val::Text(t) if t.is_ascii() => S::CharList(t.clone()),
+        Val::Bytes(b) => S::ByteList(b.clone()),
+        _ => return None,
+    })
+}
+
+/// SimpleGarnishData's convenience adders
+fn simple_only<D: SimData>(d: &mut D, m: &mut Model, op: &Op) -> Applied {
+    let any: &mut dyn std::any::Any = match as_any(d) {
+        Some(a) => a,
+        None => return Applied::Skipped,
+    };
+    let Some(sd) = any.downcast_mut::<SimpleW>() else { return Applied::Skipped };
+    let fail = |name: &str, e: garnish_lang_simple_data::DataError| Applied::Violation("C15.op-failed".into(), format!("{}: {:?}", name, crate::world::short_err(&format!("{:?}", e))));
+    let leaves = |vs: &[Val]| vs.iter().map(to_simple_leaf).collect::<Option<Vec<_>>>();
+    match op {
+        Op::ApiText(t) => {
+            if !t.is_ascii() {
+                return Applied::Skipped;
+            }
+            match sd.add_string(t.clone()) {
+                Ok(a) => m.remember(a, Val::Text(t.clone())),
+                Err(e) => return fail("add_string", e),
+            }
+        }
+        Op::ApiBytes(x) => match sd.add_u8_vec(x.clone()) {
+            Ok(a) => m.remember(a, Val::Bytes(x.clone())),
+            Err(e) => return fail("add_u8_vec", e),
+        },
+        Op::ApiSymbolList(syms) => match sd.add_symbol_list(syms.clone()) {
+            Ok(a) => m.remember(a, Val::SymList(syms.iter().map(|s| SymPart::Sym(*s)).collect())),
+            Err(e) => return fail("add_symbol_list", e),
+        },
+        Op::ApiPair(l, r) => {
+            let (Some(sl), Some(sr)) = (to_simple_leaf(l), to_simple_leaf(r)) else { return Applied::Skipped };
+            match sd.add_pair_from(sl, sr) {
+                Ok(a) => m.remember(a, Val::pair(l.clone(), r.clone())),
+                Err(e) => return fail("add_pair_from", e),
+            }
+        }
+        Op::ApiPlainList(items) => {
+            let Some(ls) = leaves(items) else { return Applied::Skipped };
+            match sd.add_plain_list_from(ls) {
+                Ok(a) => m.remember(a, Val::List(items.clone())),
+                Err(e) => return fail("add_plain_list_from", e),
+            }
+        }
+        Op::ApiAssocList(items) => {
+            let Some(ls) = leaves(&items.iter().map(|(_, v)| v.clone()).collect::<Vec<_>>()) else { return Applied::Skipped };
+            let arg: Vec<(String, _)> = items.iter().map(|(k, _)| k.clone()).zip(ls).collect();
+            match sd.add_associative_list_from(arg) {
+                Ok(a) => {
+                    for (k, _) in items {
+                        m.symnames.insert(symbol_value(k), k.clone());
+                    }
+                    m.remember(a, Val::List(items.iter().map(|(k, v)| Val::pair(Val::Sym(symbol_value(k)), v.clone())).collect()))
+                }
+                Err(e) => return fail("add_associative_list_from", e),
+            }
+        }
+        Op::ApiConcat(a1, a2, more) => {
+            let (Some(s1), Some(s2), Some(sm)) = (to_simple_leaf(a1), to_simple_leaf(a2), leaves(more)) else { return Applied::Skipped };
+            match sd.add_concatenation_from(s1, s2, sm) {
+                Ok(a) => {
+                    let mut v = Val::Concat(Box::new(a1.clone()), Box::new(a2.clone()));
+                    for x in more {
+                        v = Val::Concat(Box::new(v), Box::new(x.clone()));
+                    }
+                    m.remember(a, v)
+                }
+                Err(e) => return fail("add_concatenation_from", e),
+            }
+        }
+        _ => return Applied::Skipped,
+    }
+    Applied::Done
 }
 
 fn to_object(v: &Val) -> Option<garnish_lang_simple_data::BasicObject<()>> {
@@ -792,7 +910,19 @@ fn execute_in<D: SimData>(sc: &Sc15) -> Outcome {
                 sh.str("refused");
                 out.probe("store-full-refusal");
             }
-            Ok(Applied::Done) => done += 1,
+            Ok(Applied::Done) => {
+                done += 1;
+                // reach of the rarer operation kinds
+                match op {
+                    Op::ApiText(_) | Op::ApiBytes(_) | Op::ApiSymbolList(_) | Op::ApiPair(_, _) | Op::ApiPlainList(_) | Op::ApiAssocList(_) | Op::ApiConcat(_, _, _) => out.count("ops_convenience_adders", 1),
+                    Op::PushObject(_) => out.count("ops_push_object", 1),
+                    Op::MergeEarlier(_, _) => out.count("ops_merge_earlier", 1),
+                    Op::MakeMixedList(_) => out.count("ops_mixed_list", 1),
+                    Op::ParseTextEscaped(_, _) => out.count("ops_non_ascii_text", 1),
+                    Op::CharListFrom(_) | Op::ByteListFrom(_) | Op::SymbolFrom(_) | Op::NumberFrom(_) => out.count("ops_conversions", 1),
+                    _ => {}
+                }
+            }
             Ok(Applied::Skipped) => {}
         }
         let after_sizes = d.allocated_sizes();
@@ -893,6 +1023,26 @@ fn gen_op(rng: &mut Rng, basic: bool) -> Op {
                 Op::ParseTextEscaped(src.to_string(), expect.to_string())
             } else {
                 Op::ParseText(rng.pick(&["", "a", "hello", "two words", "abcdefghijkl"]).to_string())
+            }
+        }
+        19 if rng.chance(1, 2) => {
+            let leaf = |rng: &mut Rng| match rng.below(7) {
+                0 => Val::Unit,
+                1 => Val::Int(rng.range_i(-2, 9) as i32),
+                2 => Val::Char(*rng.pick(&['a', 'z'])),
+                3 => Val::Sym(symbol_value(*rng.pick(&["sa", "sb", "lk0"]))),
+                4 => Val::text(*rng.pick(&["", "a", "hello"])),
+                5 => Val::Bytes(b"xyz"[..rng.range(0, 3)].to_vec()),
+                _ => Val::True,
+            };
+            match rng.below(7) {
+                0 => Op::ApiText(rng.pick(&["", "a", "two words", "h\u{e9}llo", "\u{65e5}\u{672c}"]).to_string()),
+                1 => Op::ApiBytes(vec![0u8, 255, 65][..rng.range(0, 3)].to_vec()),
+                2 => Op::ApiSymbolList((0..rng.range(1, 4)).map(|_| if rng.chance(1, 4) { *rng.pick(&[0u64, u64::MAX]) } else { symbol_value(*rng.pick(&["sa", "sb", "sc"])) }).collect()),
+                3 => Op::ApiPair(leaf(rng), leaf(rng)),
+                4 => Op::ApiPlainList((0..rng.range(0, 4)).map(|_| leaf(rng)).collect()),
+                5 => Op::ApiAssocList((0..rng.range(0, 4)).map(|i| (format!("ak{}", i), leaf(rng))).collect()),
+                _ => Op::ApiConcat(leaf(rng), leaf(rng), (0..rng.range(0, 2)).map(|_| leaf(rng)).collect()),
             }
         }
         19 => Op::ParseBytes(rng.pick(&["a", "bc", "wxyz"]).to_string()),
